@@ -25,6 +25,7 @@ structure Obs where
 
 def parseObs (line : String) : Option Obs :=
   match words line with
+  | "VERDICT" :: rest => some { tid := 0, kind := "VERDICT", args := rest }   -- VRT's own last line (deadlock / step-limit)
   | t :: k :: rest => t.toNat?.map (fun t => { tid := t, kind := k, args := rest })
   | _ => none
 
